@@ -41,15 +41,23 @@ class StringSimplifyConstant:
     def filter(self, node):
         return is_string_const(node) and node != '""'
 
+    def __is_literal_content(self, content):
+        # a double quote within a string literal is written as two quotes
+        return '"' not in content.replace('""', '')
+
     def mutations(self, node):
         yield Simplification({node.id: Node('""')}, [])
         content = node[1:-1]
+        candidates = []
         for sec in nodes.binary_search(len(content)):
             start = self.__fix_escape_sequences(content, sec[0])
-            yield Simplification(
-                {node.id: Node(f'"{content[:start]}{content[sec[1]:]}"')}, [])
-        yield Simplification({node.id: Node(f'"{content[1:]}"')}, [])
-        yield Simplification({node.id: Node(f'"{content[:-1]}"')}, [])
+            candidates.append(f'{content[:start]}{content[sec[1]:]}')
+        candidates.append(content[1:])
+        candidates.append(content[:-1])
+        for cand in candidates:
+            # do not cut an escaped quote ("") in half
+            if self.__is_literal_content(cand):
+                yield Simplification({node.id: Node(f'"{cand}"')}, [])
 
     def global_mutations(self, node, input_):
         for simp in self.mutations(node):
